@@ -15,7 +15,8 @@ var (
 	Long255 = "u" + strings.Repeat("x", 254)
 	Long129 = "v" + strings.Repeat("y", 128)
 	// UserNames is the pool user entries draw from.
-	UserNames = []string{"alice", "bob", "carol", Long255, Long129}
+	// (the last six read as something other than a string to a careless parser)
+	UserNames = []string{"alice", "bob", "carol", Long255, Long129, "alice", "bob", "true", "null", "0", "~", "1e3", "no"}
 	// Passwords that have a precomputed hash.
 	Passwords = []string{"pw-alpha", "pw-bravo", "pw-charlie", "pw-delta", "pw-echo", "pw-foxtrot", "p", "password", "pass word%d\"\\", ""}
 )
